@@ -56,7 +56,20 @@ Inductive case :=
    the return overlay's index, value_base; observed result and the sites evaluated *)
 | CVf (pre : option (list vtree)) (pre_raw : option raw) (locals : option raw)
       (ret : option (index * raw)) (base : option (list (vtree * vtree))) (loc : string)
-      (o : oobs) (t : list site).
+      (o : oobs) (t : list site)
+(* a real ResourceFunction run against an API object that records and refuses every use:
+   [touched] = the API object was used; the outcome is compared when the Kubernetes part
+   (reconcile_krm_resource, not modelled) was not entered *)
+| CRf (pre : option (list vtree)) (pre_raw : option raw) (locals : option raw) (loc : string)
+      (touched : bool) (o : oobs) (t : list site).
+
+Definition rf_ok (model : option (uoutcome vtree)) (seen : oobs) : bool :=
+  match model, seen with
+  | Some (UVal v), OVal w => vtree_eqb v w
+  | Some (UOut o), OOut c d m l => outcome_ok o c d m l
+  | None, OVal VNull => true
+  | _, _ => false
+  end.
 
 Definition check_case (c : case) : bool :=
   match c with
@@ -71,4 +84,19 @@ Definition check_case (c : case) : bool :=
       end &&
       let '(r, t') := reconcile_vf f base loc in
       vf_ok r o && list_eqb site_eqb t' t
+  | CRf pre pre_raw locals loc touched o t =>
+      let f := {| rf_pre := option_map cel_filter pre; rf_locals := locals;
+                  rf_post := None; rf_return := None |} in
+      (* the Kubernetes part: an unknown outcome; it used the API iff [touched] *)
+      let krm := fun _ : option raw =>
+                   (UOut (PermFail None None) : uoutcome vtree, if touched then [tt] else []) in
+      match pre, pre_raw with
+      | Some es, Some r => raw_eqb (cel_filter es) r
+      | None, Some _ => false
+      | _, None => true
+      end &&
+      let '(r, t', calls) := reconcile_rf unit krm f loc in
+      list_eqb site_eqb t' t &&
+      Bool.eqb (match calls with [] => false | _ => true end) touched &&
+      (if existsb (site_eqb SResource) t' then true else rf_ok r o)
   end.
